@@ -1,9 +1,13 @@
 (* C19 -- Saved products equal the computed ones and the saved configuration replays.
-   Statements only; proofs are in Proofs/SaveP.v (save_results) and Proofs/SavedCfgP.v
-   (configuration flow of pandora.main). *)
+   Statements only; proofs are in Proofs/SaveP.v (save_results), Proofs/SavedCfgP.v (configuration
+   flow of pandora.main), Proofs/IndicatorP.v (the run's rewriting of `indicator`), Proofs/JsonP.v
+   and Proofs/GuardP.v (representation invariant of update_conf, scalars only), Proofs/JsonTextP.v
+   (JSON text) and Proofs/SavedFileP.v (the saved file). *)
 From Coq Require Import ZArith QArith List Bool String.
-From Pandora Require Import Model.Json Model.Checker Model.Pipeline Model.Save Model.SavedCfg Spec.Save
-  Proofs.CheckerP Proofs.SaveP Proofs.SavedCfgP Proofs.RewriteP Gen.SavePlan Gen.Schemas.
+From Pandora Require Import Model.Json Model.JsonText Model.Checker Model.Pipeline Model.Save Model.SavedCfg
+  Model.SavedFile Spec.Save
+  Proofs.CheckerP Proofs.SaveP Proofs.SavedCfgP Proofs.RewriteP Proofs.IndicatorP Proofs.JsonP Proofs.GuardP
+  Proofs.JsonTextP Proofs.SavedFileP Gen.SavePlan Gen.Schemas.
 Import ListNotations.
 
 (* Per-run obligations on the data regenerated from /repo: the write_data_array calls of
@@ -98,9 +102,51 @@ Definition gen_defs : input_defs :=
               input_configuration_schema_left_disparity_grids_right_grids_right
               default_short_configuration_input.
 
-(* per-run obligation on the regenerated step classes (the one C05 uses) *)
+(* per-run obligations on the regenerated step classes and input schemas:
+   - classes_wf (the one C05 uses): the prologues allow C05's idempotence;
+   - confidence_wf: in every class of the cost_volume_confidence kind, `indicator` is not the
+     method key, no prologue operation tests or converts it, the schema requires it and takes
+     ANY string under it;
+   - classes_scalar / defs_wf: no schema entry of a step class or of the six input schemas
+     accepts a dictionary as the value of a parameter, every default written by a prologue and
+     by default_short_configuration_input is a scalar that update_conf leaves alone, the default
+     input section is {"input": {"left": scalars, "right": scalars}}. *)
 Theorem C19_classes_wf : classes_wf classes = true.
 Proof. vm_compute. reflexivity. Qed.
+
+Theorem C19_confidence_wf : confidence_wf classes = true.
+Proof. vm_compute. reflexivity. Qed.
+
+Theorem C19_scalars_wf : classes_scalar classes = true /\ defs_wf gen_defs = true.
+Proof. split; vm_compute; reflexivity. Qed.
+
+(* REPRESENTATION INVARIANT of Model/Json.v established by update_conf, WHATEVER it is given
+   (association lists with a key twice, dictionaries nested anywhere, "NaN"/"inf"/"-inf"):
+   in the merged value every dictionary has each key once (set_key never duplicates) and no
+   leaf is one of the three strings update_conf converts. *)
+Theorem C19_update_conf_invariant : forall def user r,
+  wfd def = true -> update_conf def user = Some r -> wfd r = true.
+Proof. exact update_conf_wf. Qed.
+
+(* SCALARS ONLY.  A dictionary accepted by a json-checker dictionary schema none of whose
+   entries takes a dictionary (the boolean test above) holds scalars / lists only. *)
+Theorem C19_accepted_values_are_scalars : forall orc ks d,
+  entries_no_dict ks = true -> nodup_str (keys d) = true ->
+  accepts orc (SDict ks) (JDict d) = true -> forallb (fun kv => leafb (snd kv)) d = true.
+Proof. exact accepted_leaves. Qed.
+
+(* (b) REWRITING `indicator` KEEPS A CONFIDENCE STEP ACCEPTED.  For every class passing the
+   test, every completed step d that the class accepts and returns unchanged, and EVERY string
+   s: the step with `indicator` := s is accepted and returned unchanged. *)
+Theorem C19_indicator_rewrite_accepted : forall s g c d,
+  In c classes -> String.eqb (c_kind c) "cost_volume_confidence" = true -> clean d = true ->
+  class_check no_oracle g c d = Some d ->
+  class_check no_oracle g c (set_key "indicator" (JStr s) d) = Some (set_key "indicator" (JStr s) d).
+Proof.
+  intros s g c d I K C H.
+  destruct (class_in_wf classes C19_classes_wf c I) as [OC _].
+  exact (class_check_upd s g c d (cvc_class classes C19_confidence_wf c I K) C OC H).
+Qed.
 
 Section Config.
   (* file-system oracles: ANY answer of "this path opens", of the grid tests, of check_images,
@@ -122,44 +168,107 @@ Section Config.
     input_check gen_defs orc grid_ok images_ok c = Some c.
   Proof. exact (input_check_fix gen_defs orc grid_ok images_ok). Qed.
 
-  (* CHECKED CONFIGURATION = FIXPOINT.  For every user configuration that check_conf accepts
-     (any pipeline of the built-in classes, suffixed steps, "NaN"/nan invalid_disparity, interval
-     or grids) under the guard: check_conf of the completed configuration returns it unchanged
-     (input section and pipeline section: C05's class-level idempotence lifted through
-     update_conf, the registry dispatch, the band / interpolation / grid rules and the second
-     round with the images exchanged), and a "margins" entry of any value is ignored. *)
-  Theorem C19_checked_cfg_fixpoint : forall user cfg,
-    check_conf user = Some cfg -> guard user = true ->
-    check_conf cfg = Some cfg /\ forall m, check_conf (set_key "margins" m cfg) = Some cfg.
+  (* (a) THE GUARD ALWAYS HOLDS.  For EVERY user configuration that check_conf accepts -- no
+     hypothesis on it: any association list -- the completed input section is
+     {"input": {"left": scalars, "right": scalars}} extending the defaults in place, no completed
+     step holds a "NaN" string, every completed step holds scalars / lists only, no key twice. *)
+  Theorem C19_guard_holds : forall user cfg, check_conf user = Some cfg -> guard user = true.
   Proof.
-    exact (full_check_fixpoint gen_defs orc grid_ok images_ok bands_of classes interpolation_methods C19_classes_wf).
+    exact (replay_guard_holds gen_defs orc grid_ok images_ok bands_of classes interpolation_methods
+             C19_classes_wf (proj1 C19_scalars_wf) (proj2 C19_scalars_wf)).
   Qed.
 
-  (* THE SAVED CONFIGURATION REPLAYS (partial).  Full statement, kept visible: *)
-  Definition C19_saved_cfg_replays_full : Prop := forall user m saved,
+  (* CHECKED CONFIGURATION = FIXPOINT.  For every user configuration that check_conf accepts
+     (any pipeline of the built-in classes, suffixed steps, "NaN"/nan invalid_disparity, interval
+     or grids): check_conf of the completed configuration returns it unchanged (input section
+     and pipeline section: C05's class-level idempotence lifted through update_conf, the registry
+     dispatch, the band / interpolation / grid rules and the second round with the images
+     exchanged), and a "margins" entry of any value is ignored. *)
+  Theorem C19_checked_cfg_fixpoint : forall user cfg,
+    check_conf user = Some cfg ->
+    check_conf cfg = Some cfg /\ forall m, check_conf (set_key "margins" m cfg) = Some cfg.
+  Proof.
+    intros user cfg H.
+    exact (full_check_fixpoint gen_defs orc grid_ok images_ok bands_of classes interpolation_methods C19_classes_wf
+             user cfg H (C19_guard_holds user cfg H)).
+  Qed.
+
+  (* THE CONFIGURATION AS RUN IS A FIXPOINT TOO: after the run has stored the suffix of each
+     cost_volume_confidence step name under `indicator`. *)
+  Theorem C19_cfg_as_run_fixpoint : forall user cfg,
+    check_conf user = Some cfg ->
+    check_conf (run_rewrites cfg) = Some (run_rewrites cfg)
+    /\ forall m, check_conf (set_key "margins" m (run_rewrites cfg)) = Some (run_rewrites cfg).
+  Proof.
+    intros user cfg H.
+    exact (full_check_rewritten gen_defs orc grid_ok images_ok bands_of classes interpolation_methods
+             C19_classes_wf C19_confidence_wf user cfg H (C19_guard_holds user cfg H)).
+  Qed.
+
+  (* THE SAVED CONFIGURATION REPLAYS (level of the dictionaries handed to json.dump / returned by
+     json.load; the JSON text is C19_saved_file_replays below).  For every user configuration and
+     every margins value: if main saves [saved], then check_conf accepted the user configuration,
+     [saved] is the completed configuration as run plus the margins, feeding [saved] back is
+     accepted and yields the same configuration, and main saves the same dictionary again. *)
+  Theorem C19_saved_cfg_replays : forall user m saved,
     main m user = Some saved ->
     exists cfg, check_conf user = Some cfg
                 /\ saved = set_key "margins" m (run_rewrites cfg)       (* completed configuration as run + margins *)
                 /\ check_conf saved = Some (run_rewrites cfg)           (* fed back: accepted, same configuration *)
                 /\ main m saved = Some saved.                           (* and saved again unchanged *)
-  (* PROVED below: the statement under (i) the decidable guard (scalars only in the completed
-     steps, no key twice -- true of Python dicts and of every built-in class, evaluated by the
-     harness on every case of every run; that update_conf / the schemas always establish it is
-     NOT proved), and (ii) run_rewrites cfg = cfg, i.e. no cost_volume_confidence step whose
-     `indicator` differs from the suffix of its name (every configuration without suffixed
-     confidence steps, and every configuration that was itself saved by a run).  MISSING for
-     the full statement: the lemma that replacing the value of `indicator` by another string
-     keeps a confidence step accepted (its schema is `str`), and (i).  The harness replays every
-     case, suffixed confidence steps included, on the real code. *)
-  Theorem C19_saved_cfg_replays_partial : forall user m saved,
-    main m user = Some saved -> guard user = true ->
-    (forall cfg, check_conf user = Some cfg -> run_rewrites cfg = cfg) ->
-    exists cfg, check_conf user = Some cfg /\ saved = set_key "margins" m cfg
-                /\ check_conf saved = Some cfg /\ main m saved = Some saved.
   Proof.
-    exact (main_saved_replays gen_defs orc grid_ok images_ok bands_of classes interpolation_methods C19_classes_wf).
+    intros user m saved H.
+    assert (G : guard user = true).
+    { unfold main_saved in H.
+      destruct (full_check gen_defs orc grid_ok images_ok bands_of classes interpolation_methods user) as [cfg|] eqn:E;
+        [|discriminate]. exact (C19_guard_holds user cfg E). }
+    exact (main_saved_replays_rw gen_defs orc grid_ok images_ok bands_of classes interpolation_methods
+             C19_classes_wf C19_confidence_wf user m saved H G).
   Qed.
 End Config.
+
+(* (c) JSON ROUND TRIP.  For every value of the JSON subset of Model/JsonText.v (null, booleans,
+   NaN / Infinity / -Infinity, every integer, every float that is a reduced fraction with a finite
+   decimal expansion of at most 20 fraction digits, strings of printable ASCII without the
+   double quote and the backslash, lists and dictionaries of such, any depth, any size):
+   the text json.dump writes parses back (json.load) to the same value, key order included. *)
+Theorem C19_json_roundtrip : forall v, printable v = true -> parse (print v) = Some v.
+Proof. exact parse_print. Qed.
+
+Section ConfigFile.
+  Variable orc : string -> jv -> option bool.
+  Variable grid_ok : jv -> jv -> bool.
+  Variable images_ok : dict -> bool.
+  Variable bands_of : jv -> list jv.
+
+  Notation check_conf := (full_check gen_defs orc grid_ok images_ok bands_of classes interpolation_methods).
+  Notation check_file := (check_file gen_defs orc grid_ok images_ok bands_of classes interpolation_methods).
+  Notation main_file := (main_file gen_defs orc grid_ok images_ok bands_of classes interpolation_methods).
+
+  (* THE SAVED FILE REPLAYS.  main_file m text = the text of cfg/config.json that pandora.main
+     writes when given a configuration file holding [text] (json.load, check_conf, the run's
+     rewriting of `indicator`, margins m added, json.dump).  Whenever it writes [out]: the input was
+     a JSON dictionary that check_conf accepts, [out] is the print of the completed configuration
+     as run plus the margins, and -- provided that dictionary is in the JSON subset (no string
+     needing an escape, floats with finite decimal expansions) -- [out] is loadable, check_conf
+     accepts what it loads and returns the same completed configuration, and main writes exactly
+     the same text again. *)
+  Theorem C19_saved_file_replays : forall m text out,
+    main_file m text = Some out ->
+    exists user cfg saved,
+      parse text = Some (JDict user)
+      /\ check_conf user = Some cfg
+      /\ saved = set_key "margins" m (run_rewrites cfg)
+      /\ out = print (JDict saved)
+      /\ (printable (JDict saved) = true ->
+          parse out = Some (JDict saved)
+          /\ check_file out = Some (run_rewrites cfg)
+          /\ main_file m out = Some out).
+  Proof.
+    exact (saved_file_replays gen_defs orc grid_ok images_ok bands_of classes interpolation_methods
+             C19_classes_wf C19_confidence_wf (proj1 C19_scalars_wf) (proj2 C19_scalars_wf)).
+  Qed.
+End ConfigFile.
 
 (* What the run writes into the configuration (the `indicator` of each cost_volume_confidence
    step := the suffix of its name) is idempotent: the configuration saved by a run is not
@@ -167,7 +276,7 @@ End Config.
 Theorem C19_run_rewrites_idempotent : forall cfg, run_rewrites (run_rewrites cfg) = run_rewrites cfg.
 Proof. exact run_rewrites_idem. Qed.
 
-(* D8 (DESIGN section 4), regression witness.  The model of main BEFORE fix e0eac6a stored the
+(* D8 (DESIGN section 4), regression witness.  The model of main BEFORE fix e44909e stored the
    derived right interval [-max, -min] in the configuration it saved; the input check refuses
    that file (right disp must be None when the left one is a pair).  The repaired main saves a
    configuration that is accepted and saved again unchanged. *)
@@ -198,14 +307,48 @@ Example C19_replay_example :
      end.
 Proof. vm_compute. repeat split. Qed.
 
+(* Non-vacuity of the file-level theorem: the witness as a JSON text with a suffixed confidence
+   step, floats, NaN; the saved text is in the subset and is saved again unchanged. *)
+Example C19_file_example :
+  let text := "{ ""input"": {""left"": {""img"": ""l.tif"", ""disp"": [-2, 2], ""nodata"": NaN}, ""right"": {""img"": ""r.tif""}},
+     ""pipeline"": {""matching_cost"": {""matching_cost_method"": ""zncc"", ""window_size"": 3},
+                  ""cost_volume_confidence.a1"": {""confidence_method"": ""ambiguity"", ""eta_max"": 0.5, ""indicator"": ""mine""},
+                  ""disparity"": {""disparity_method"": ""wta"", ""invalid_disparity"": ""NaN""},
+                  ""filter"": {""filter_method"": ""bilateral"", ""sigma_color"": 4.0}} }"%string in
+  match main_file gen_defs open_orc ok2 ok1 d8_bands classes interpolation_methods (JDict [("left", JInt 1)]%string) text with
+  | Some out =>
+    match parse out with
+    | Some (JDict saved) =>
+      printable (JDict saved) = true
+      /\ main_file gen_defs open_orc ok2 ok1 d8_bands classes interpolation_methods (JDict [("left", JInt 1)]%string) out = Some out
+      /\ (match lookup "pipeline" saved with
+          | Some (JDict p) => match lookup "cost_volume_confidence.a1" p with
+                              | Some (JDict c) => lookup "indicator" c
+                              | _ => None end
+          | _ => None end) = Some (JStr ".a1")
+    | _ => False
+    end
+  | None => False
+  end.
+Proof. vm_compute. repeat split. Qed.
+
 Print Assumptions C19_plan_wf.
 Print Assumptions C19_files_iff_products.
 Print Assumptions C19_casts_exact.
 Print Assumptions C19_band_bookkeeping.
 Print Assumptions C19_right_files_iff_validation.
 Print Assumptions C19_classes_wf.
+Print Assumptions C19_confidence_wf.
+Print Assumptions C19_scalars_wf.
+Print Assumptions C19_update_conf_invariant.
+Print Assumptions C19_accepted_values_are_scalars.
+Print Assumptions C19_indicator_rewrite_accepted.
 Print Assumptions C19_input_section_replays.
+Print Assumptions C19_guard_holds.
 Print Assumptions C19_checked_cfg_fixpoint.
-Print Assumptions C19_saved_cfg_replays_partial.
+Print Assumptions C19_cfg_as_run_fixpoint.
+Print Assumptions C19_saved_cfg_replays.
+Print Assumptions C19_json_roundtrip.
+Print Assumptions C19_saved_file_replays.
 Print Assumptions C19_before_fix_refuted.
 Print Assumptions C19_run_rewrites_idempotent.
